@@ -24,6 +24,10 @@ type c13query struct {
 	name string
 	sql  string // %d is replaced by a per-thread number so that selector texts are fresh per thread
 	bag  bool   // compare as a multiset (joins)
+	// noopts: New is called without any option; mayFail: the query may fail alone (then it must fail
+	// the same way under every schedule)
+	noopts  bool
+	mayFail bool
 }
 
 var c13Queries = []c13query{
@@ -41,6 +45,13 @@ var c13Queries = []c13query{
 	{name: "exists", sql: "SELECT id FROM t WHERE EXISTS (SELECT q FROM items WHERE q > 0)"},
 	{name: "order-distinct", sql: "SELECT DISTINCT g FROM t ORDER BY g DESC"},
 	{name: "vars", sql: "SELECT SETVAR('k', a), GETVAR('k') AS v FROM t"},
+	// the same statement text in every thread: a parsed statement must not be shared between builds
+	// (building a UNION or a JOIN ... USING writes into the AST)
+	{name: "union", sql: "SELECT id FROM t UNION ALL SELECT rid FROM u"},
+	{name: "join-using", sql: "SELECT * FROM t x JOIN u y USING (g)", bag: true},
+	// queries built without any option: nothing but the selector cache and the registries may be shared
+	{name: "getvar-no-options", sql: "SELECT id, GETVAR('k') AS v FROM t", noopts: true},
+	{name: "setvar-no-options", sql: "SELECT SETVAR('k', a), id FROM t", noopts: true, mayFail: true},
 }
 
 type c13case struct {
@@ -157,7 +168,12 @@ func (p *c13) RunCase(i int) *core.CaseResult {
 	for k := range sqls {
 		sqls[k] = p.sqlOf(c, k)
 	}
-	opts := func() []genql.QueryOption { return []genql.QueryOption{genql.WithVars(map[string]any{})} }
+	optsFor := func(k int) []genql.QueryOption {
+		if c13Queries[c.qs[k]].noopts {
+			return nil
+		}
+		return []genql.QueryOption{genql.WithVars(map[string]any{})}
+	}
 	raceSeen := map[string]bool{}
 	raceBase := racemon.Errors()
 	// drainRaces reports every race the detector printed since the last call (whatever part of
@@ -180,14 +196,17 @@ func (p *c13) RunCase(i int) *core.CaseResult {
 	solo := make([][]string, n)
 	for k := range sqls {
 		genql.VerifResetSelectorCache()
-		o := gq.Run(c13Doc(), sqls[k], opts()...)
+		o := gq.Run(c13Doc(), sqls[k], optsFor(k)...)
 		drainRaces("solo run of thread "+fmt.Sprint(k), nil)
 		r.Execs++
-		if o.Failed() || o.GPanic != "" {
+		if (o.Failed() || o.GPanic != "") && !(c13Queries[c.qs[k]].mayFail && o.Panic == "" && o.GPanic == "") {
 			r.Fail(p.sig(c, "solo-"+o.Status()), fmt.Sprintf("%s alone: %s %v %s %s", sqls[k], o.Status(), o.Err, o.Panic, o.GPanic), map[string]any{"sql": sqls[k]})
 			return r
 		}
 		solo[k] = gq.RenderRows(o.Rows)
+		if o.Err != nil {
+			solo[k] = []string{"error"}
+		}
 		if c13Queries[c.qs[k]].bag {
 			sort.Strings(solo[k])
 		}
@@ -208,7 +227,7 @@ func (p *c13) RunCase(i int) *core.CaseResult {
 		genql.VerifResetSelectorCache()
 		if c.warm {
 			for k := range sqls {
-				gq.Run(c13Doc(), sqls[k], opts()...)
+				gq.Run(c13Doc(), sqls[k], optsFor(k)...)
 			}
 		}
 		for k := range outs {
@@ -216,7 +235,7 @@ func (p *c13) RunCase(i int) *core.CaseResult {
 		}
 		optss := make([][]genql.QueryOption, n)
 		for k := range optss {
-			optss[k] = opts()
+			optss[k] = optsFor(k)
 		}
 		res := vrt.Run(cfg, prefix, func() {
 			if n == 1 {
@@ -239,12 +258,15 @@ func (p *c13) RunCase(i int) *core.CaseResult {
 		}
 		var oc []string
 		for k, o := range outs {
-			if o.Failed() {
+			if o.Failed() && !(o.Err != nil && o.Panic == "" && len(solo[k]) == 1 && solo[k][0] == "error") {
 				r.Fail(p.sig(c, o.Status()), fmt.Sprintf("%v schedule %v: thread %d ended with %s: %v %s (alone it succeeds)", sqls, prefix, k, o.Status(), o.Err, o.Panic), cs)
 				ok = false
 				continue
 			}
 			got := gq.RenderRows(o.Rows)
+			if o.Err != nil {
+				got = []string{"error"}
+			}
 			if c13Queries[c.qs[k]].bag {
 				sort.Strings(got)
 			}
@@ -290,7 +312,7 @@ func (p *c13) RunCase(i int) *core.CaseResult {
 
 func (p *c13) Meta() core.Meta {
 	return core.Meta{
-		Rule: "one case per harness: 1 query alone (internal parallelism), or every unordered pair (thorough: also triples over a 7-query subset) of 14 queries (filter, projection, fresh path selector, group-by, joins incl. PARALLEL hash and nested, ASYNC, SPINASYNC, CTE, IN-subquery, EXISTS, ORDER BY+DISTINCT, SETVAR/GETVAR) x {separate documents, one shared document} x {cold selector cache, warm cache}; each case = stateless exploration of every interleaving with <= 2 (thorough 3) preemptions at sync-operation granularity of the real engine under the -race build; oracle per schedule: no new race report, no deadlock / goroutine panic (scheduler), every thread's result equals its solo result. non-trivial = more than one schedule executed",
+		Rule: "one case per harness: 1 query alone (internal parallelism), or every unordered pair (thorough: also triples over a 7-query subset) of 18 queries (filter, projection, fresh path selector, group-by, joins incl. PARALLEL hash and nested, ASYNC, SPINASYNC, CTE, IN-subquery, EXISTS, ORDER BY+DISTINCT, SETVAR/GETVAR, UNION and JOIN USING with the same text in every thread, GETVAR / SETVAR built without any option) x {separate documents, one shared document} x {cold selector cache, warm cache}; each case = stateless exploration of every interleaving with <= 2 (thorough 3) preemptions at sync-operation granularity of the real engine under the -race build; oracle per schedule: no new race report, no deadlock / goroutine panic (scheduler), every thread's result equals its solo result. non-trivial = more than one schedule executed",
 		Assumptions: []string{
 			"scheduling points at every Mutex/RWMutex/WaitGroup operation, go statement, thread exit and harness yield; unsynchronised accesses are covered by the happens-before race monitor on each explored schedule (DRF-SC)",
 			"the race detector reports each distinct race (stack pair) once per worker process; a report is attributed to the first case of that worker that exhibits it",
